@@ -154,6 +154,10 @@ class _StatePointDict(JSONAttrDict):
                     # loaded: read it from the restored file.
                     previous_statepoint = self._load_from_resource()
                 with self._suspend_sync:
+                    # Start from an empty mapping: an in-place update keeps
+                    # values that compare equal to the new ones (1 and True)
+                    # and nested collections that are replaced by None.
+                    self._data.clear()
                     self._update(previous_statepoint)
                 if error.errno in (errno.EEXIST, errno.ENOTEMPTY, errno.EACCES):
                     raise DestinationExistsError(new_id)
